@@ -29,9 +29,11 @@ static void apply_op(Rig& r, char op, int& cur) {
     case 'F': r.f->updateCSR(cutoff(r)); break;
     }
 }
+static int ZKIND = 0;   // shape of the impedance table: 0 = zero above N/2 (as every model), 1 = zero from N/4 on (a short user table alone), 2 = non-zero everywhere (a user table given with its negative-frequency half)
 static void set_impedance(Rig& r) {
     std::vector<impedance_t> Z(r.c.N);
-    for (unsigned k = 0; k < r.c.N; k++) Z[k] = k <= r.c.N / 2 ? impedance_t(20.f + 10.f * std::fabs(std::sin(0.37f * k)), 15.f * std::cos(0.21f * k)) : impedance_t(0, 0);
+    const unsigned top = ZKIND == 0 ? r.c.N / 2 : ZKIND == 1 ? r.c.N / 4 : r.c.N;
+    for (unsigned k = 0; k < r.c.N; k++) Z[k] = k <= top ? impedance_t(20.f + 10.f * std::fabs(std::sin(0.37f * k)), 15.f * std::cos(0.21f * k)) : impedance_t(0, 0);
     r.set_z(Z);
 }
 static uint64_t canon(Rig& r, int cur, unsigned requested) {
@@ -57,7 +59,7 @@ int main(int argc, char** argv) {
     const bool T = R.thorough();
     const unsigned maxdepth = T ? 14 : 10;
     std::vector<Cfg> cfgs;
-    for (unsigned N : (T ? std::vector<unsigned>{16, 24, 30, 32, 33, 37, 64, 75, 128} : std::vector<unsigned>{16, 30, 32, 33})) {
+    for (unsigned N : (T ? std::vector<unsigned>{16, 24, 30, 32, 33, 37, 64, 75, 128} : std::vector<unsigned>{16, 30, 32, 33, 64})) {
         cfgs.push_back(Cfg{4, 1, N, 0, {0}});       // as main() builds the radiation field
         cfgs.push_back(Cfg{4, 1, N, 5, {1}});       // single bunch not in bucket 0
         cfgs.push_back(Cfg{4, 2, N, 5, {1, 0}});
@@ -66,10 +68,12 @@ int main(int argc, char** argv) {
     }
     if (R.warm) { std::set<unsigned> seen; for (auto& c : cfgs) if (seen.insert(c.N).second) { Rig r(c); r.f->wakePotential(); } return 0; }
     uint64_t states = 0, transitions = 0, closed = 0; unsigned deepest = 0;
-    for (auto& c : cfgs) {
-        std::string kase = mcx::Desc()("n", c.n)("N", c.N)("buckets", bstr(c.buckets))("spacing", c.spacing).str();
+    for (auto& c : cfgs) for (int zk = 0; zk < 3; zk++) {
+        if (zk && !T && !(c.N == 16 || c.N == 33 || c.N == 64)) continue;
+        std::string kase = mcx::Desc()("n", c.n)("N", c.N)("buckets", bstr(c.buckets))("spacing", c.spacing)("ztable", zk == 0 ? "half" : zk == 1 ? "short" : "full").str();
         if (!R.mine(kase)) continue;
         if (R.out_of_time()) { R.not_completed = kase; break; }
+        ZKIND = zk;
         // reference outputs of fresh objects: (profile, op)
         Out fresh[3];
         for (int p = 0; p < 3; p++) for (char op : {'W', 'D', 'C', 'F'}) {
@@ -118,6 +122,7 @@ int main(int argc, char** argv) {
     }
     // ---- two field objects on the same phase space (as main() has a radiation field and a wake field): operations on one must not
     //      change what the other returns.  Alphabet: P0,P1 | W,C on object A | w,c on object B; depth-bounded BFS with canonical hashing of BOTH
+    ZKIND = 0;
     for (auto& c : cfgs) {
         if (!(c.N == 16 || c.N == 33 || (T && c.N == 64))) continue;
         std::string kase = mcx::Desc()("two-objects", 1)("n", c.n)("N", c.N)("buckets", bstr(c.buckets))("spacing", c.spacing).str();
@@ -162,6 +167,6 @@ int main(int argc, char** argv) {
         states += seen.size();
     }
     R.numbers["states"] = (double)states; R.numbers["transitions"] = (double)transitions; R.numbers["sum_configurations_closed"] = (double)closed; R.numbers["deepest_history"] = deepest;
-    R.bound_done("BFS over {P0,P1,P2,W,D,C,F} histories to closure or depth " + std::to_string(maxdepth) + " per configuration; " + std::to_string(cfgs.size()) + " configurations");
+    R.bound_done("BFS over {P0,P1,P2,W,D,C,F} histories to closure or depth " + std::to_string(maxdepth) + " per configuration; " + std::to_string(cfgs.size()) + " configurations x impedance table shapes {zero above N/2, short table, full spectrum}");
     return R.finish();
 }
